@@ -302,6 +302,7 @@ func classifyH(c CaseH) core.Class {
 			if !l.SMB {
 				hl = append(hl, hostLabels(l.HTTP.Hosts)...)
 			}
+			hl = append(hl, scaleLabels(CaseA{SMB: l.SMB, HTTP: l.HTTP, Pipe: l.Pipe})...)
 		}
 		cl.Labels = append(cl.Labels, uniqS(hl)...)
 	}
